@@ -22,6 +22,7 @@ import re
 import sys
 import threading
 import uuid
+from textwrap import indent
 from ast import literal_eval
 from functools import lru_cache
 from time import time
@@ -674,7 +675,14 @@ class LLMGenerationActions:
                 lines = result.split("\n")
                 while True:
                     try:
-                        parse_colang_file("dynamic.co", content="\n".join(lines))
+                        # We check the flow the same way it is parsed when it is started.
+                        parsed_data = parse_colang_file(
+                            "dynamic.co",
+                            content="define flow dynamic:\n"
+                            + indent("\n".join(lines), "  "),
+                        )
+                        if len(parsed_data["flows"]) != 1:
+                            raise ValueError("Expected a single flow.")
                         break
                     except Exception as e:
                         # If we could not parse the flow on the last line, we return a general response
